@@ -28,6 +28,9 @@ Section Hub.
   Variable refresh_after_write : bool.
   (* does enable() force the evaluation of ALL expressions (not only the port's own)?  regenerated from ports.py *)
   Variable enable_forces_all : bool.
+  (* does disable() force the evaluation of all expressions?  (AVAILABLE($p) / DEFAULT($p, x) change when p is disabled)
+     regenerated from ports.py *)
+  Variable disable_forces_all : bool.
 
   Inductive phase := Idle | Writing (v : option V) | NeedRefresh | Refreshing.
 
@@ -173,7 +176,9 @@ Section Hub.
                   force_all := if enable_forces_all then true else force_all s |}
     | Disable p =>
         let x := ports s p in
-        Some (set_port s p {| src := src x; last := last x; expr := expr x; evq := evq x; ph := ph x; forced := forced x; en := false |})
+        let s1 := set_port s p {| src := src x; last := last x; expr := expr x; evq := evq x; ph := ph x; forced := forced x; en := false |} in
+        Some {| ports := ports s1; all_ids := all_ids s1; pass := pass s1;
+                force_all := if en x && disable_forces_all then true else force_all s |}
     end.
 
   Fixpoint run (s : state) (tr : list event) : option state :=
